@@ -839,6 +839,50 @@ def nontrivial_ml(c, o):
     return any(a[3] == b[3] and a[2] != b[2] for a in ws for b in ws)      # one key written on two leaders
 
 
+
+# --------------------------------------------------------------------------- multi-leader decision kernel (direct drive)
+def gen_mlk(rng):
+    n = 3
+
+    def ver(i):
+        return [i + 1, rng.randint(0, 3), rng.randrange(n), [rng.randint(0, 2) for _ in range(rng.choice([n, n, n, 2]))]]
+    return dict(a=ver(0), b=ver(1))
+
+
+def impl_mlk(c):
+    from happysimulator.components.replication import conflict_resolver as cr
+    from happysimulator.components.replication import multi_leader as mlmod
+
+    def vv(v):
+        return cr.VersionedValue(value=v[0], timestamp=v[1] / US, writer_id=f"n{v[2]}",
+                                 vector_clock={f"n{i}": x for i, x in enumerate(v[3])})
+    a, b = vv(c["a"]), vv(c["b"])
+    dab = mlmod._vc_dominates(a.vector_clock, b.vector_clock)
+    dba = mlmod._vc_dominates(b.vector_clock, a.vector_clock)
+    same = (dab == cr._vc_dominates(a.vector_clock, b.vector_clock)) and (dba == cr._vc_dominates(b.vector_clock, a.vector_clock))
+    return dict(dab=dab, dba=dba, same=same, lww=cr.LastWriterWins().resolve("k", [a, b]).value,
+                merge=cr.VectorClockMerge().resolve("k", [a, b]).value)
+
+
+def oracle_mlk(c, o):
+    a, b = c["a"], c["b"]
+    out = []
+
+    def dom(x, y):
+        m = max(len(x), len(y))
+        x, y = x + [0] * (m - len(x)), y + [0] * (m - len(y))
+        return all(p >= q for p, q in zip(x, y)) and any(p > q for p, q in zip(x, y))
+    if o["dab"] != dom(a[3], b[3]) or o["dba"] != dom(b[3], a[3]) or not o["same"]:
+        out.append(dict(clause="vector-clock dominance: all components >= and one >"))
+    hi = max([a, b], key=lambda v: (v[1], v[2]))
+    if (a[1], a[2]) != (b[1], b[2]) and o["lww"] != hi[0]:
+        out.append(dict(clause="LastWriterWins picks the highest (timestamp, writer)"))
+    exp = a[0] if dom(a[3], b[3]) else b[0] if dom(b[3], a[3]) else o["lww"]
+    if o["merge"] != exp:
+        out.append(dict(clause="a causally dominating version wins, concurrent versions go to the resolver"))
+    return out
+
+
 def nontrivial_chain(c, o):
     ks = [op[3] for op in c["ops"] if op[1] == "W" and op[2] == 0]
     return len(ks) != len(set(ks))
@@ -850,6 +894,9 @@ FAMILIES = [
            parallel=True, describe=lambda c: f"n={c['n']},craq={c['craq']}"),
     Family("ml", ML_IMPORTS, "ok_ml", ML_TYPE, gen_ml, impl_ml, encode_ml, oracle_ml, nontrivial_ml,
            parallel=True, describe=lambda c: f"n={c['n']},{c['resolver']}"),
+    Family("mlk", ML_IMPORTS, "ok_ml_kernel", "ver * ver * (bool * bool * Z * Z)", gen_mlk, impl_mlk,
+           lambda c, o: term((ver_term(c["a"]), ver_term(c["b"]), (o["dab"], o["dba"], o["lww"], o["merge"]))),
+           oracle_mlk, lambda c, o: o["dab"] or o["dba"]),
 ]
 
 TRUSTED = [
@@ -875,10 +922,10 @@ class _Sharded:
 
 
 def run(ctx):
-    ctx.prove(["C17/Model.v", "C17/PBProofs.v", "C17/PBConv.v", "C17/Chain.v", "C17/ChainProofs.v", "C17/ChainConv.v", "C17/ML.v", "C17/Props.v"], allowed_axioms=(), trusted_base=TRUSTED)
+    ctx.prove(["C17/Model.v", "C17/PBProofs.v", "C17/PBConv.v", "C17/Chain.v", "C17/ChainProofs.v", "C17/ChainConv.v", "C17/ML.v", "C17/MLProofs.v", "C17/Props.v"], allowed_axioms=(), trusted_base=TRUSTED)
     n = ctx.n(100, 1500)
     sctx = _Sharded(ctx)
-    stats = [run_family(sctx, fam, n) for fam in FAMILIES]
+    stats = [run_family(sctx, fam, n * 3 if fam.name == "mlk" else n) for fam in FAMILIES]
     merge_stats(ctx, stats, "random client schedules over 1-3 keys with repeated keys, per-message scripted link delays (messages overtake each other), all modes, 0-3 backups; non-trivial = some key written twice with >= 1 replica; distinct by JSON of the input")
     ctx.finish_obligations()
 
